@@ -585,7 +585,8 @@ tx_outs:\n{tx_outs}
                 hash_type=hash_type,
             )
         elif script_pubkey.is_p2tr():
-            if len(tx_in.witness) > 1:
+            # the annex is not part of the stack that selects key path / script path
+            if len(tx_in.witness) - (1 if tx_in.witness.has_annex() else 0) > 1:
                 ext_flag = 1
             else:
                 ext_flag = 0
